@@ -13,7 +13,6 @@
 #include <cstdarg>
 #include <fcntl.h>
 #include <memory>
-#include <setjmp.h>
 #include <signal.h>
 
 using namespace SimTK;
@@ -538,9 +537,7 @@ static void simulate(verif::Run& run, const Cfg& cfg, Judge& J, uint64_t& outcom
     (void)nEventReturns; (void)v;
 }
 
-// ---------------------------------------------------------------- watchdog + two-pass execution
-static sigjmp_buf g_jmp;
-static void onAlarm(int) { siglongjmp(g_jmp, 1); }
+// ---------------------------------------------------------------- two-pass execution
 static void quietWorker(verif::Run& run) {
     static bool done = false;
     if (done || run.replaying()) return;
@@ -548,33 +545,40 @@ static void quietWorker(verif::Run& run) {
     int fd = open("/dev/null", O_WRONLY);
     if (fd >= 0) { dup2(fd, 2); close(fd); }
 }
+static const long WORK_BUDGET = 300000;     // realizations per simulation; the largest healthy simulation needs < 20000
 static void runCase(verif::Run& run, const Cfg& cfg) {
-    static bool installed = false;
-    if (!installed) { installed = true; struct sigaction sa; memset(&sa, 0, sizeof sa); sa.sa_handler = onAlarm; sa.sa_flags = SA_NODEFER; sigaction(SIGALRM, &sa, nullptr); }
+    // A simulation that loops inside the library is stopped by the odesys work budget.  The budget itself is the
+    // criterion (the exception may be swallowed inside the library: CPODES' callbacks catch everything, after which
+    // the results are garbage), and it takes precedence over every other clause.  The alarm is a last resort for a
+    // loop that does not even realize the state (kills the worker).
+    alarm(300);
+    bool loops = false;
     for (int pass = 0; pass < 2; ++pass) {
-        Judge* J = new Judge(run, cfg, pass == 1 || run.verbose);
+        Judge J(run, cfg, pass == 1 || run.verbose);
+        if (pass == 1 && loops) J.reported = true;       // build the trace only; the one report is made below
         uint64_t outcome = verif::hashStr(INTEG_NAMES[cfg.integ]);
-        if (sigsetjmp(g_jmp, 1)) {
-            run.expect(false, std::string(INTEG_NAMES[cfg.integ]) + "/simulation-never-returns", [&] { return "the simulation did not finish within 8 s: " + cfg.str() + "\n  " + cfg.describe() + "\n" + J->trace; }, [&] { return "cfg=" + cfg.str() + "\n" + J->trace; });
-            return;
-        }
-        alarm(8);
         bool threw = false; std::string what;
-        try { simulate(run, cfg, *J, outcome); }
+        odesys::workBudget() = WORK_BUDGET;
+        try { simulate(run, cfg, J, outcome); }
         catch (const std::exception& e) { threw = true; what = e.what(); }
-        alarm(0);
-        if (threw) J->check(false, "unexpected-exception", [&] { return "the simulation threw: " + what.substr(0, 400); });
+        const bool exhausted = odesys::workBudget() == 0;
+        odesys::workBudget() = -1;
+        if (exhausted) {
+            loops = true;
+            if (!J.tracing) J.sawFailure = true;
+            else run.expect(false, std::string(INTEG_NAMES[cfg.integ]) + "/simulation-never-returns",
+                            [&] { return "simulation-never-returns: the simulation kept realizing the state without finishing (stopped after " + std::to_string(WORK_BUDGET) + " realizations)\n  at " + J.where(); }, [&] { return J.replay(); });
+        } else if (threw) J.check(false, "unexpected-exception", [&] { return "the simulation threw: " + what.substr(0, 400); });
         if (pass == 0) { run.evaluation(verif::hashStr(cfg.str()), true); run.outcome(outcome); }
-        if (run.verbose) printf("%s\n  %s\n%s", cfg.str().c_str(), cfg.describe().c_str(), J->trace.c_str());
-        const bool again = J->sawFailure;
-        delete J;
-        if (!again) break;
+        if (run.verbose) printf("%s\n  %s\n%s", cfg.str().c_str(), cfg.describe().c_str(), J.trace.c_str());
+        if (!J.sawFailure) break;
     }
+    alarm(0);
 }
 
 int main(int argc, char** argv) {
     verif::Run run("C22", argc, argv);
-    run.setDeadline(1200, 5400);   // safety net only: quick needs ~20-40 s on 16 idle cores (about 320 CPU-s), see notes
+    run.setDeadline(1200, 7200);   // safety net only: quick needs ~20-40 s on 16 idle cores (about 320 CPU-s), see notes
     const bool thorough = run.thorough();
     run.rule = "a case = (value set, integrator, crossing pattern, direction-mask combination, action of handler 0, fixed/controlled step, report grid, scheduled-handler variant, driver); "
                "every case is one complete simulation to the final time, judged at every ReachedEventTrigger (raw driver) and on its handler log and report states (both drivers) against an analytic reference; "
